@@ -201,15 +201,20 @@ impl ProxyClusterMeta {
             _ => return Err(CmdParseError::InvalidArgs),
         };
 
-        // Skip the "UMCTL SETCLUSTER"
-        let it = arr.iter().skip(2).flat_map(|resp| match resp {
-            Resp::Bulk(BulkStr::Str(safe_str)) => match str::from_utf8(safe_str.as_ref()) {
-                Ok(s) => Some(s.to_string()),
-                _ => None,
-            },
-            _ => None,
-        });
-        let mut it = it.peekable();
+        // Skip the "UMCTL SETCLUSTER".
+        // Every argument must be a UTF-8 bulk string: an element of any other kind
+        // rejects the whole command instead of being dropped silently.
+        let mut args = Vec::with_capacity(arr.len().saturating_sub(2));
+        for element in arr.iter().skip(2) {
+            match element {
+                Resp::Bulk(BulkStr::Str(safe_str)) => match str::from_utf8(safe_str.as_ref()) {
+                    Ok(s) => args.push(s.to_string()),
+                    Err(_) => return Err(CmdParseError::InvalidArgs),
+                },
+                _ => return Err(CmdParseError::InvalidArgs),
+            }
+        }
+        let mut it = args.into_iter().peekable();
 
         Self::parse(&mut it)
     }
